@@ -81,10 +81,14 @@ def _nodes_only_added(c, S, S0):
                   c.forall(["id"], lambda n: z3.Implies(z3.And(sel(S.nk, n), z3.Not(sel(S0.nk, n))), z3.And(sel(S.Nin, n) == c.EMPTY, sel(S.Nout, n) == c.EMPTY))))
 
 
+from contracts.common import anf_post as _anf_post  # noqa: E402
+
+
 s = std(contract(D + "add_nodes_from", [("self", "net:DH"), ("nodes_for_adding", "val"), ("attr", "kwattr")]))
 s.loop("for n in nodes_for_adding", lambda c, A, K: [
     G("struct", ("C02",), DInv(c, K.S)), G("fresh", ("C02", "C04"), z3.And(Fresh(c, K.S), _edges_untouched(c, K.S, A.S0))),
-    G("frame", ("C05",), _nodes_only_added(c, K.S, A.S0))])
+    G("frame", ("C05",), z3.And(_nodes_only_added(c, K.S, A.S0), rec_eq(c, A.attr.get()[0], A.attr.get()[1], A.kw0["attr"][0], A.kw0["attr"][1])))],
+    post=_anf_post)
 s.ens_all("edges-untouched", ("C04", "C05"), lambda c, A, R: _edges_untouched(c, R.S, A.S0))
 s.ens_all("nodes-only-added", ("C05",), lambda c, A, R: _nodes_only_added(c, R.S, A.S0))
 s.exc("XGIError")
